@@ -109,4 +109,6 @@ def solo_confirm(spec, inst, actions, solution_len=None):
 def solo_reward(env, td, actions):
     acts = torch.tensor([list(actions)], dtype=torch.long).reshape(1, len(actions))
     E._set_bs(env, 1)
-    return float(env._get_reward(td, acts).reshape(-1)[0])
+    r1 = float(env._get_reward(td, acts).reshape(-1)[0])
+    r2 = float(env._get_reward(td, acts).reshape(-1)[0])  # the answer must not change when asked again
+    return r2 if abs(r1 - r2) > 1e-7 * (1 + abs(r1)) else r1
